@@ -1225,12 +1225,12 @@ func c04R6(p *core.Prog, r *core.Report, trav *ssa.Function, rule string) {
 		}
 		okErr := false
 		// the child copies themselves are the origins looked for
-		hs := core.HelpersExcept(f, 2, func(h *ssa.Function) bool { return h == trav || h.Name() == "imageCopyBlob" })
+		hs := core.HelpersExcept(f, 2, func(h *ssa.Function) bool { return h == trav || canon(h) == "imageCopyBlob" })
 		for _, o := range core.Origins(v, core.SliceOpts{Helpers: hs}) {
 			if o.Kind != core.OCall {
 				continue
 			}
-			if g := core.CalleeFn(o.Call); g != nil && (g == trav || g.Name() == "imageCopyBlob") {
+			if g := core.CalleeFn(o.Call); g != nil && (g == trav || canon(g) == "imageCopyBlob") {
 				okErr = true
 			}
 		}
